@@ -188,6 +188,54 @@ def fault_cases(R, n):
                     flags["cool"] = False
 
 
+def hook_cases(R, n):
+    """oracle-only: move hooks that switch devices through the API themselves, veto the move, or return parameters the move is
+    refused for (builder_common.hook_sessions); the emitted program as a whole must stay safe for the controller"""
+    for case, events, _specs in bc.hook_sessions(R.rng, n):
+        R.evaluations += 1
+        R.count("hook-sessions", "hook-sessions:nested-calls=%d" % min(3, sum(len(e["nested"]) for e in events)))
+        bad = bc.unsafe_lines([ln for e in events for ln in e["lines"]])
+        if bad:
+            R.fail(case, f"`{bad[0]}` emitted with tool={bad[1]} coolant={bad[2]} (hooks that call the API / veto the move)", tag="unsafe")
+
+
+def styled_cases(R, n):
+    """oracle-only: every comment style the formatter supports; comments passed through the tracked API mention stop / start codes.
+    Comment text is not code: the interlocks must be judged on what is executable."""
+    from . import fmt_common as fc
+    from .builder_impl import canon_stmt
+
+    texts = ["finishing pass, M5 and M9 follow", "M05 M09", "stop (M5) coolant (M9)", "m5 m9", "after M09", "M3 S100", "M8", "spindle M05 done; M09"]
+    for _ in range(n):
+        r = R.rng
+        symbols = r.choice(fc.ALL_SYMBOLS)
+        opening, closing = fc.style_of(symbols)
+        g, w = fc.make_builder(5, symbols, "\n")
+        calls = []
+        R.evaluations += 1
+        R.count("styled:" + ("pair" if closing else "eol"))
+        ops = [("tool_on", lambda: g.tool_on("clockwise", 1000)), ("coolant_on", lambda: g.coolant_on("flood")),
+               ("comment", lambda: g.comment(r.choice(texts))), ("move+comment", lambda: g.move(x=r.randint(0, 40), comment=r.choice(texts))),
+               ("rapid+comment", lambda: g.rapid(z=r.randint(0, 9), comment=r.choice(texts))),
+               ("pause", lambda: g.pause()), ("wait", lambda: g.wait()), ("stop", lambda: g.stop()), ("tool_change", lambda: g.tool_change("manual", 3)),
+               ("tool_on again", lambda: g.tool_on("counter", 500)), ("coolant_on again", lambda: g.coolant_on("mist")),
+               ("tool_off", lambda: g.tool_off()), ("coolant_off", lambda: g.coolant_off())]
+        seq = [ops[0], ops[1]] if r.random() < 0.7 else []
+        seq += [r.choice(ops) for _ in range(r.randint(3, 9))]
+        for name, fn in seq:
+            try:
+                fn()
+                calls.append(name)
+            except Exception as e:  # noqa
+                calls.append(f"{name} -> {type(e).__name__}")
+        out = b"".join(w.raw).decode("utf-8")
+        exe = [",".join(canon_stmt(" ".join(ws)).split(",")) for ws in fc.strip_comments(out, opening, closing)]
+        bad = bc.unsafe_lines(exe)
+        if bad:
+            R.fail({"comment_symbols": symbols, "calls": calls}, f"`{bad[0]}` is executable with tool={bad[1]} coolant={bad[2]} "
+                   f"(comment style {symbols!r}; raw output {out!r})", tag="unsafe")
+
+
 def run(R: core.Run):
     R.rule = ("random call histories (5-40 calls) over the interlock API interleaved with moves, modes, temperatures and "
               "bounds, ~10% malformed arguments; non-trivial = at least two emitting calls; distinct by hash of the history")
@@ -201,6 +249,8 @@ def run(R: core.Run):
         bc.correspond(R, ex, KEYS, True, "exhaustive<=4", oracle)
         R.extra["exhaustive_subrun"] = {"cases": len(ex), "scope": f"all sequences of length <= 4 over {len(ALPHABET)} interlock calls", "exhaustive": True}
     fault_cases(R, R.n(300, 3000))
+    hook_cases(R, R.n(200, 2500))
+    styled_cases(R, R.n(200, 2500))
     if R.broken:
         R.search_batches += 1
         for h in histories(R, R.n(1500, 5000)):
